@@ -3,6 +3,7 @@ package main
 // oracle_msgs.go — direct oracles for the message-level properties.
 
 import (
+	"sort"
 	"bytes"
 	"fmt"
 	"reflect"
@@ -749,28 +750,105 @@ func oracleC10(rep *report, r *rng) {
 }
 
 // ---------- C11 ----------
+// cut positions at list start + k*block*elemSize, for every place the encoding holds one of the message's list lengths
+func blockCuts(m any, enc []byte) []int {
+	lens := map[int]bool{}
+	collectLens(reflect.ValueOf(m), lens, 0)
+	var out []int
+	for n := range lens {
+		if n < 64 {
+			continue
+		}
+		for _, w := range []int{2, 4} {
+			for _, le := range []bool{false, true} {
+				pat := countBytes(le, w, uint64(n))
+				for off := 0; off+w <= len(enc); off++ {
+					if !bytes.Equal(enc[off:off+w], pat) {
+						continue
+					}
+					start := off + w
+					for _, esz := range []int{1, 2, 4, 8, 10, 16} {
+						for _, blk := range []int{64, 100, 128, 256, 500, 512, 1000, 1024, 2048, 4096} {
+							for k := 1; k*blk < n && start+k*blk*esz < len(enc); k++ {
+								out = append(out, start+k*blk*esz)
+							}
+						}
+					}
+				}
+			}
+		}
+	}
+	return out
+}
+
+func hasListField(t *genType) bool {
+	for _, f := range t.Fields {
+		if f.Kind == "ints" || f.Kind == "strs" || f.Kind == "ptrs" {
+			return true
+		}
+	}
+	return false
+}
+
 func oracleC11(rep *report, r *rng) {
-	rep.Rule = "every type x every registered key x canonical values x every cut position 0..len-1 (sampled above 2 KiB): Decode of the strict prefix must return an error"
+	rep.Rule = "every type x every registered key x canonical values (incl. one with 1,100-element lists per plain list-bearing type) x every cut position up to 8 KiB, beyond that every 8th, the last 4 KiB and all whole-block cuts inside lists: Decode of the strict prefix must return an error"
 	n := rounds(rep, 2, 12)
 	forTypesAndEntries(r, func(t *genType, mk func(genOpts) any, tag string) {
 		for k := 0; k < n && !rep.failed(); k++ {
+			if k == 1 && tag == "" && hasListField(t) {
+				forceListLen = 1100 // long lists: readers that work block-wise have boundaries inside them
+			}
 			m := mk(genOpts{canonical: true, bigLists: k == 1})
+			forceListLen = 0
 			before := dumpMsg(m)
 			st, enc := encodeFresh(m)
 			if st != "ok" {
 				continue
 			}
-			step := 1
-			if len(enc) > 2048 {
-				step = len(enc) / 1024
+			if len(enc) > 1<<18 {
+				continue
 			}
-			for cut := 0; cut < len(enc); cut += step {
+			hk := uint64(14695981039346656037)
+			for i := 0; i < len(before); i++ {
+				hk = (hk ^ uint64(before[i])) * 1099511628211
+			}
+			beforeKey := fmt.Sprintf("%x", hk)
+			if len(before) > 4000 {
+				before = before[:4000] + "...(long value: regenerate from the seed)"
+			}
+			// every cut position up to 16 KiB; beyond that every 8th and, after each place where the encoding holds one
+			// of the message's list lengths (a list starts there), the cuts at whole numbers of elements that are
+			// multiples of common block sizes - where a block-wise reader may stop early
+			cuts := map[int]bool{}
+			if len(enc) <= 8192 {
+				for c := 0; c < len(enc); c++ {
+					cuts[c] = true
+				}
+			} else {
+				for c := 0; c < len(enc); c += 8 {
+					cuts[c] = true
+				}
+				for c := len(enc) - 4096; c < len(enc); c++ {
+					if c >= 0 {
+						cuts[c] = true
+					}
+				}
+			}
+			for _, c := range blockCuts(m, enc) {
+				cuts[c] = true
+			}
+			var order []int
+			for c := range cuts {
+				order = append(order, c)
+			}
+			sort.Ints(order)
+			for _, cut := range order {
 				recv := t.New()
 				if k%2 == 1 && cut%3 == 0 {
 					recv, _ = r.dirtyReceiver(t)
 				}
 				st, _ := decodeInto(recv, enc[:cut])
-				rep.eval("cut/"+st, fmt.Sprint(t.Id, cut, before))
+				rep.eval("cut/"+st, fmt.Sprint(t.Id, cut, beforeKey))
 				if st != "err" {
 					rep.fail(failure{Oracle: "prefix-rejected", Type: t.QName(), What: fmt.Sprintf("Decode of the first %d of %d bytes returned %s", cut, len(enc), st),
 						Input: inputOf(t, "value", before, "encoded_hex", hx(enc), "cut", cut, "tag", tag)})
